@@ -243,6 +243,36 @@ def build_inputs(con, engine):
     return env, facts, names
 
 
+
+_REBOUND = {}
+
+
+def _rebound_params(fn):
+    """names of parameters of fn that its body assigns as plain names (x = ..., for x in ..., with ... as x)"""
+    import ast as _ast
+    key = id(fn)
+    if key in _REBOUND and _REBOUND[key][0] is fn:
+        return _REBOUND[key][1]
+    params = set()
+    if hasattr(fn, "args"):
+        a = fn.args
+        params = {x.arg for x in a.posonlyargs + a.args + a.kwonlyargs}
+    out = set()
+    for n in _ast.walk(fn) if hasattr(fn, "body") else []:
+        tg = []
+        if isinstance(n, _ast.Assign):
+            tg = n.targets
+        elif isinstance(n, (_ast.AnnAssign, _ast.For)):
+            tg = [n.target]
+        elif isinstance(n, _ast.With):
+            tg = [i.optional_vars for i in n.items if i.optional_vars is not None]
+        for t in tg:
+            for m in _ast.walk(t):
+                if isinstance(m, _ast.Name) and isinstance(m.ctx, _ast.Store) and m.id in params:
+                    out.add(m.id)
+    _REBOUND[key] = (fn, out)
+    return out
+
 def verify_contract(con, contracts, tier="quick", externals=None):
     res = FnResult(con.name)
     t0 = time.time()
@@ -348,7 +378,8 @@ def verify_contract(con, contracts, tier="quick", externals=None):
                         amap = dict(argmap)
                         amap.update({"exc_args": tuple(exc.args)})
                         for p in names:
-                            amap[p + "_post"] = s_out.env.get(p)
+                            if p not in _rebound_params(con.node):
+                                amap[p + "_post"] = s_out.env.get(p)
                         amap["_trace"] = s_out.trace
                         for ln, lv in s_out.env.items():
                             if not ln.startswith("__"):
@@ -374,7 +405,9 @@ def verify_contract(con, contracts, tier="quick", externals=None):
                 amap["old_" + p_] = v_
             amap["result"] = result
             for p in names:
-                amap[p + "_post"] = s_out.env.get(p)
+                if p not in _rebound_params(con.node):
+                    # (for a parameter the function re-binds, the final local value says nothing about the caller's object)
+                    amap[p + "_post"] = s_out.env.get(p)
             for ln, lv in s_out.env.items():
                 if not ln.startswith("__"):
                     amap.setdefault("local_" + ln, lv)
@@ -486,5 +519,54 @@ def verify_lemma(lem, tier="quick"):
         res.error, res.error_kind = str(e), "subset"
     except Exception:
         res.error, res.error_kind = traceback.format_exc(), "crash"
+    res.seconds = time.time() - t0
+    return res
+
+
+def verify_frame(fr, tier="quick"):
+    """discharge the obligations of a frame contract with the effect analysis of pyvc.frames"""
+    from . import frames
+    import sys as _sys
+    res = FnResult(fr.target)
+    t0 = time.time()
+    old = _sys.getrecursionlimit()
+    _sys.setrecursionlimit(max(old, 10000))
+    try:
+        r = frames.check_frame(fr.target_fn, modifies=fr.modifies, types=fr.types, values=fr.values, use_defaults=fr.use_defaults)
+        res.file, res.lineno, res.sha = r["file"], r["line"], r["sha"]
+        res.paths = len(r["functions"])
+        if r["error"]:
+            res.error, res.error_kind = "frame analysis: " + r["error"], "subset"
+            return res
+        res.assumptions = list(fr.assumptions) + ["frame analysis of %s: %s" % (fr.target_fn.split("::")[1], a) for a in r["assumed"]]
+        if r["global_writes"]:
+            res.notes.append("module-level state written (memo / registry): " + "; ".join(sorted(set("%s at %s:%d" % (g[0][7:], g[1], g[2]) for g in r["global_writes"]))[:6]))
+        dt = time.time() - t0
+        checked = [p for p in r["params"] if p not in fr.modifies]
+        n = max(1, len(checked) + 1)
+        for p in checked:
+            recs = r["effects"].get(p, [])
+            d = {"name": "%s#frame/%s_unchanged" % (fr.target, p), "instance": 0, "kind": "frame", "line": r["line"], "text": "",
+                 "status": "refuted" if recs else "proved", "backend": "frames", "seconds": round(dt / n, 4)}
+            if recs:
+                d["witness"] = ["%s:%d %s   [reached via %s]" % (x[0], x[1], x[2], x[3]) for x in recs[:8]]
+                d["inductive"] = False
+            res.obligations.append(d)
+        drecs = []
+        for root, recs in r["effects"].items():
+            if root.startswith("default:"):
+                drecs.extend(["mutable default argument %s: %s:%d %s   [reached via %s]" % (root[8:], x[0], x[1], x[2], x[3]) for x in recs[:4]])
+        d = {"name": "%s#frame/mutable_default_arguments_unchanged" % fr.target, "instance": 0, "kind": "frame", "line": r["line"], "text": "",
+             "status": "refuted" if drecs else "proved", "backend": "frames", "seconds": round(dt / n, 4)}
+        if drecs:
+            d["witness"] = drecs[:8]
+        res.obligations.append(d)
+        res.notes.append("functions analysed (callees inlined): %d" % len(r["functions"]))
+    except KeyError as e:
+        res.error, res.error_kind = "frame target not found: %s" % e, "subset"
+    except Exception:
+        res.error, res.error_kind = traceback.format_exc(), "crash"
+    finally:
+        _sys.setrecursionlimit(old)
     res.seconds = time.time() - t0
     return res
